@@ -8,7 +8,62 @@ def S(name, variant, n, *args):
     return [X('%s-%d' % (name, k), variant, *(list(args) + ['shard=%d/%d' % (k, n)])) for k in range(n)]
 
 MIX = ['mixed1', 'mixed2', 'mixed3']
-ALL = '012345678'   # nop, throw A/B/C, call K0..K3 (callees containing their own try/catch), call a plain thrower
+ALL = '012345678'   # nop, throw A/B/C, call K0..K3 (callees containing their own try/catch), call a thrower that is handed the object
+ALL9 = ALL + '9'    # handler slots only (halpha=): 9 = the handler re-throws the object it was given
+
+# Allocation class of the thrown VALUE objects (alloc=): every value-object instance runs alloc=mix1 unless it says otherwise
+# (A built with $(...) / $S / $I in the frame of the function that runs the program, B in static storage, C new_raw);
+# the instances below pin each class for all three objects and run the other two rotations, with the re-throw statement
+# in the handler alphabet.  Quick: a few seconds of CPU in total.
+VAL = ['struct', 'string', 'int']
+ALLOC = {
+  'quick': (
+      [X('d1-rethrow', 'base', 'depth=1', 'alpha=' + ALL, 'halpha=' + ALL9, 'ppalpha=012', 'chain=1')]
+      + [X('d1-alloc-%s-%s' % (o, a), 'base', 'objs=' + o, 'alloc=' + a, 'depth=1', 'alpha=' + ALL, 'halpha=' + ALL9, 'ppalpha=012', 'chain=1')
+         for o in VAL for a in ('stack', 'static', 'heap')]
+      + [X('d1-alloc-struct-mix2', 'base', 'objs=struct', 'alloc=mix2', 'depth=1', 'alpha=' + ALL, 'halpha=' + ALL9, 'ppalpha=' + ALL, 'chain=1', 'fresh=1'),
+         X('d1-alloc-string-mix3', 'base', 'objs=string', 'alloc=mix3', 'depth=1', 'alpha=' + ALL, 'halpha=' + ALL9, 'ppalpha=012', 'chain=1'),
+         X('d1-alloc-int-mix2', 'base', 'objs=int', 'alloc=mix2', 'depth=1', 'alpha=' + ALL, 'halpha=' + ALL9, 'ppalpha=012', 'chain=1'),
+         X('d1-alloc-cmptry-stack', 'base', 'objs=cmptry', 'alloc=stack', 'depth=1', 'alpha=' + ALL, 'halpha=' + ALL9, 'ppalpha=012', 'chain=1'),
+         X('d1-alloc-mixed2-mix3', 'base', 'objs=mixed2', 'alloc=mix3', 'depth=1', 'alpha=' + ALL, 'halpha=' + ALL9, 'ppalpha=012', 'chain=1'),
+         X('d1-alloc-msg-stack', 'base', 'objs=string', 'alloc=stack', 'msg=mix', 'depth=1', 'alpha=' + ALL, 'halpha=' + ALL9, 'ppalpha=012'),
+         X('d1-alloc-fork', 'base', 'objs=string', 'alloc=stack', 'depth=1', 'alpha=' + ALL, 'halpha=' + ALL9, 'ppalpha=012', 'main=0', 'fork=1'),
+         X('d2-alloc-struct-stack', 'base', 'objs=struct', 'alloc=stack', 'depth=2', 'alpha=012458', 'halpha=0124589', 'ppalpha=0'),
+         X('d2-alloc-string-mix2', 'base', 'objs=string', 'alloc=mix2', 'depth=2', 'alpha=0128', 'halpha=01289', 'ppalpha=0'),
+         X('d2-alloc-int-mix3', 'base', 'objs=int', 'alloc=mix3', 'depth=2', 'alpha=0128', 'halpha=01289', 'ppalpha=0'),
+         X('seq-alloc', 'base', 'objs=struct', 'alloc=mix2', 'kind=seq', 'alpha=01248', 'halpha=012489', 'ppalpha=0'),
+         X('deep-alloc-stack', 'base', 'mode=deep', 'objs=int', 'alloc=stack'),
+         X('deep-alloc-static', 'base', 'mode=deep', 'objs=string', 'alloc=static'),
+         X('deep-alloc-mix2', 'base', 'mode=deep', 'objs=struct', 'alloc=mix2'),
+         X('d1-alloc-asan', 'asan', 'objs=string', 'alloc=stack', 'depth=1', 'alpha=' + ALL, 'halpha=' + ALL9, 'ppalpha=012', 'chain=1'),
+         X('d2-alloc-asan', 'asan', 'objs=struct', 'alloc=mix2', 'depth=2', 'alpha=0128', 'halpha=01289', 'ppalpha=0'),
+         X('deep-alloc-asan', 'asan', 'mode=deep', 'objs=struct', 'alloc=stack')]),
+  'thorough': (
+      [X('d1-rethrow', 'base', 'depth=1', 'alpha=' + ALL, 'halpha=' + ALL9, 'ppalpha=' + ALL, 'chain=1', 'fresh=1')]
+      + S('d2-rethrow', 'base', 2, 'depth=2', 'alpha=' + ALL, 'halpha=' + ALL9, 'ppalpha=0')
+      + [X('d1-alloc-%s-%s' % (o, a), 'base', 'objs=' + o, 'alloc=' + a, 'depth=1', 'alpha=' + ALL, 'halpha=' + ALL9, 'ppalpha=' + ALL, 'chain=1', 'fresh=1')
+         for o in VAL + ['cmptry'] for a in ('stack', 'static', 'heap', 'mix1', 'mix2', 'mix3')]
+      + [X('d1-alloc-%s-%s' % (o, a), 'base', 'objs=' + o, 'alloc=' + a, 'depth=1', 'alpha=' + ALL, 'halpha=' + ALL9, 'ppalpha=012', 'chain=1')
+         for o in MIX for a in ('stack', 'mix2', 'mix3')]
+      + [i for a in ('stack', 'mix2', 'mix3') for i in S('d2-alloc-struct-' + a, 'base', 2, 'objs=struct', 'alloc=' + a, 'depth=2', 'alpha=' + ALL, 'halpha=' + ALL9, 'ppalpha=0')]
+      + S('d2-alloc-string-stack', 'base', 2, 'objs=string', 'alloc=stack', 'depth=2', 'alpha=' + ALL, 'halpha=' + ALL9, 'ppalpha=0')
+      + S('d2-alloc-int-stack', 'base', 2, 'objs=int', 'alloc=stack', 'depth=2', 'alpha=' + ALL, 'halpha=' + ALL9, 'ppalpha=0')
+      + [X('d2-alloc-string-static', 'base', 'objs=string', 'alloc=static', 'depth=2', 'alpha=0124568', 'halpha=01245689', 'ppalpha=0'),
+         X('d2-alloc-chain', 'base', 'objs=struct', 'alloc=stack', 'depth=2', 'alpha=0128', 'halpha=01289', 'ppalpha=01', 'chain=1')]
+      + S('d3-alloc-stack', 'base', 4, 'objs=struct', 'alloc=stack', 'depth=3', 'alpha=012', 'halpha=0129', 'ppalpha=0')
+      + S('d3-alloc-mix2', 'base', 2, 'objs=int', 'alloc=mix2', 'depth=3', 'alpha=012', 'halpha=019', 'ppalpha=0')
+      + S('seq-alloc', 'base', 2, 'objs=struct', 'alloc=mix2', 'kind=seq', 'alpha=' + ALL, 'halpha=' + ALL9, 'ppalpha=0')
+      + S('seqt-alloc', 'base', 2, 'objs=string', 'alloc=stack', 'kind=seqt', 'alpha=0128', 'halpha=01289', 'ppalpha=0')
+      + [i for o in VAL for i in S('d1-alloc-fork-' + o, 'base', 2, 'objs=' + o, 'alloc=stack', 'depth=1', 'alpha=' + ALL, 'halpha=' + ALL9, 'ppalpha=012', 'main=0', 'fork=1')]
+      + [X('d1-alloc-msg-stack', 'base', 'objs=string', 'alloc=stack', 'msg=mix', 'depth=1', 'alpha=' + ALL, 'halpha=' + ALL9, 'ppalpha=' + ALL, 'chain=1')]
+      + [X('deep-alloc-%s-%s' % (o, a), 'base', 'mode=deep', 'objs=' + o, 'alloc=' + a) for o in VAL for a in ('stack', 'static', 'heap', 'mix2')]
+      + [X('d1-alloc-%s-asan' % o, 'asan', 'objs=' + o, 'alloc=stack', 'depth=1', 'alpha=' + ALL, 'halpha=' + ALL9, 'ppalpha=012', 'chain=1') for o in VAL]
+      + [X('d1-alloc-static-asan', 'asan', 'objs=string', 'alloc=static', 'depth=1', 'alpha=' + ALL, 'halpha=' + ALL9, 'ppalpha=012', 'chain=1'),
+         X('d2-alloc-asan', 'asan', 'objs=struct', 'alloc=mix2', 'depth=2', 'alpha=012458', 'halpha=0124589', 'ppalpha=0'),
+         X('d1-alloc-fork-asan', 'asan', 'objs=int', 'alloc=stack', 'depth=1', 'alpha=' + ALL, 'halpha=' + ALL9, 'ppalpha=0', 'main=0', 'fork=1'),
+         X('deep-alloc-asan', 'asan', 'mode=deep', 'objs=struct', 'alloc=stack'),
+         X('deep-alloc-string-asan', 'asan', 'mode=deep', 'objs=string', 'alloc=mix3')]),
+}
 
 # A filter entry whose Cmp function RAISES AND HANDLES an exception of its own while exception_catch scans the
 # filter overwrites the record on the current tree (genuine defect, proposed/C07-catch-scan-overwrites-record.md):
@@ -146,6 +201,8 @@ CHECK = {
          X('deep-cmptry', 'base', 'mode=deep', 'objs=cmptry'),
          X('d1-cmptry-asan', 'asan', 'objs=cmptry', 'depth=1', 'alpha=' + ALL, 'ppalpha=012', 'chain=1')]
       + (CMPTHROW['quick'] if CMPTHROW_ENABLED else [])
+      # allocation class of the thrown value objects (stack / static / heap), re-throw of the bound object
+      + ALLOC['quick']
       # the library's own exception kinds: names, all 16x16 thrown x filter pairs, three-level routing, Uncaught diagnostics
       + [X('builtin', 'base', 'mode=builtin'), X('builtin-asan', 'asan', 'mode=builtin')]
       # deep dynamic nesting (recursion) up to EXCEPTION_MAX_DEPTH open try blocks, one forked child per case
@@ -225,6 +282,8 @@ CHECK = {
          X('d2-cmptry-asan', 'asan', 'objs=cmptry', 'depth=2', 'alpha=0124', 'ppalpha=0'),
          X('deep-cmptry-asan', 'asan', 'mode=deep', 'objs=cmptry')]
       + (CMPTHROW['thorough'] if CMPTHROW_ENABLED else [])
+      # allocation class of the thrown value objects (stack / static / heap), re-throw of the bound object
+      + ALLOC['thorough']
       # the library's own exception kinds: names, all 16x16 thrown x filter pairs, three-level routing, Uncaught diagnostics
       + [X('builtin', 'base', 'mode=builtin'), X('builtin-asan', 'asan', 'mode=builtin')]
       # deep dynamic nesting (recursion) up to EXCEPTION_MAX_DEPTH open try blocks, one forked child per case
